@@ -116,7 +116,12 @@ def gen_srt(rng, n=None):
         doc = "\n" + doc
     elif r < 0.11:
         doc = doc.replace(" --> ", " -> ", 1)
-    elif r < 0.2 and n > 1:
+    elif r < 0.24 and n > 1:
+        out.reverse()                   # cues out of order
+        doc = sep.join(out)
+    elif r < 0.27:
+        doc = "\ufeff" + doc
+    elif r < 0.36 and n > 1:
         # a malformed timestamp in a later cue: the reader raises after having built earlier captions
         k = doc.rfind(" --> ")
         doc = doc[:k - 6] + rng.choice(["xx", "", ":"]) + doc[k - 4:]
@@ -295,6 +300,8 @@ def gen_dfxp(rng, n=None, nlangs=None, abs_units=None):
         abs_units = rng.random() < 0.25
     units = ["%"] if not abs_units else ["%", "px", "px", "em", "c", "pt"]
     langs = rng.sample(LANGS, nlangs)
+    if nlangs > 1 and rng.random() < 0.12:
+        langs[-1] = langs[0]          # two <div>s with the same language
     styles = []
     nstyles = rng.randint(0, 3)
     for i in range(nstyles):
@@ -646,6 +653,24 @@ def gen_recipe(rng, abs_units=None, unbalanced=None, nlangs=None, scc_safe=False
                 for (s, e) in _times(rng, rng.randint(1, 4), same=0.2)]
         langs.append({"lang": lang, "captions": caps,
                       "layout": rng.choice(layouts) if layouts and rng.random() < 0.4 else None})
+    if rng.random() < 0.2:
+        # shapes a "normalising" pre-pass would touch: captions out of order, a negative start, whitespace-only or
+        # padded text, an empty text node
+        l = rng.choice(langs)
+        k = rng.random()
+        if k < 0.3 and len(l["captions"]) > 1:
+            rng.shuffle(l["captions"])
+        elif k < 0.5:
+            c = rng.choice(l["captions"])
+            c["start"], c["end"] = -1500000, c["end"] - c["start"] - 1500000
+        elif k < 0.8:
+            c = rng.choice(l["captions"])
+            for n in c["nodes"]:
+                if n["t"] == "text" and rng.random() < 0.6:
+                    n["c"] = rng.choice(["  " + n["c"] + " ", "   ", "", "\t" + n["c"], n["c"] + "\n"])
+        else:
+            c = rng.choice(l["captions"])
+            c["end"] = c["start"]          # zero-length caption
     if rng.random() < 0.06:
         # a caption of 40 short lines at the end of the first language: too many rows for the SCC writer,
         # which raises only after it has encoded the earlier captions
